@@ -548,6 +548,12 @@ def oracle_c10(res):
             for e in res["script"]["events"]:
                 if e[0] == "P" and e[2] == now_dl[0]["srv"]:
                     tp, pcode, pbody, nr = e[1], e[5], e[7], e[8]
+                    if len(e) > 11 and e[11]:
+                        # a response that cannot be serialised: nothing of it may reach the wire; what is sent
+                        # instead (5.00) must not reuse the request's message ID unless it is its ACK
+                        if [o for o in sn if o["tick"] == tp and o["remote"] == remote and o["code"] == pcode]:
+                            return f"unsendable-sent: a response that cannot be serialised reached the wire"
+                        break
                     if shut and tp >= shut[0]:
                         continue
                     replaced = [tt for (tt, kk, ff) in ins if kk == "R" and t < tt < tp and int(ff[0]) == remote
